@@ -159,7 +159,7 @@ def gen(seed, run, tier='quick'):
             if depth == 0:
                 continue
             lv = rng.randrange(1, depth + 1) if rng.random() < 0.6 else 1
-            toks.append(['raise', lv])
+            toks.append(['raise', lv, int(rng.random() < 0.3)])
             for _ in range(lv):
                 toks.append(['leave'])
                 if mstack:
@@ -227,6 +227,10 @@ def shrink_args(h):
 
 class _SimExit(Exception):
     pass
+
+
+class _SimAbort(BaseException):
+    """leaves with-blocks like KeyboardInterrupt does: not an Exception"""
 
 
 class _StubRaise(Exception):
@@ -657,7 +661,9 @@ def execute(h):
             if depth == 0:
                 return      # nothing to leave
             bump(faults, 'leave_by_exception')
-            e = _SimExit()
+            e = _SimAbort() if len(t) > 2 and t[2] else _SimExit()
+            if isinstance(e, _SimAbort):
+                bump(faults, 'leave_by_base_exception')
             e.levels = t[1]
             raise e
         elif op == 'unsafe':
@@ -701,12 +707,12 @@ def execute(h):
                         block(i + 1, j, depth + 1)
                     except Stop:
                         raise
-                    except Exception as e:
+                    except (Exception, _SimAbort) as e:
                         body_exc = e
                         raise
             except Stop:
                 raise
-            except Exception as e:
+            except (Exception, _SimAbort) as e:
                 exc = e
             exit_raised = exc is not None and exc is not body_exc
             if mstack and mstack[-1] == c:
@@ -739,8 +745,9 @@ def execute(h):
             block(0, len(toks), 0)
         except Stop:
             raise
-        except Exception as e:
-            if not isinstance(e, (_SimExit, UnitConversionError)):
+        except (Exception, _SimAbort) as e:
+            if not isinstance(e, (_SimExit, _SimAbort,
+                                  UnitConversionError)):
                 raise
         # all blocks left
         after(len(toks), 'end')
